@@ -59,7 +59,39 @@ def jobs(tier):
             for dmg in (["intact", "flip"], ["missing", "intact"], ["trunc", "intact"]):
                 out.append(("v%d.%s.P16384.%s.root" % (version, shape, "-".join(k[0] for k in dmg)), "job_recheck",
                             dict(prop="C04", version=version, shape=shape, P=16384, K=1, dmg=dmg, source="ref", cpath="root")))
+    # a long-lived Checker: verified while intact, content damaged afterwards, verified again on the same object
+    for version in (1, 2, 3):
+        for kind in ("flip", "trunc"):
+            out.append(("v%d.flat2.P16384.again-after-%s" % (version, kind), "job_again", dict(version=version, shape="flat2", P=16384, K=2, kind=kind)))
     return out
+
+
+def job_again(E, version, shape, P, K, kind, _mutants=None):
+    from symx.afs import AFS
+    from symx.loader import World, BenTok
+    rels = rk.SHAPES[shape]
+    fs = AFS(order="reversed")
+    sizes = {r: E.int("s%d" % i, 0, K * P) for i, r in enumerate(rels)}
+    E.note("shape", shape)
+    total = 0
+    for s_ in sizes.values():
+        total = total + s_
+    E.assume(total > 0)
+    rk.apply_damage(E, fs, shape, sizes, ["intact"] * len(rels))
+    meta = rk.ref_meta(E, version, shape, sizes, P, False, True)
+    fs.add_token("/t/m.torrent", BenTok(meta))
+    w = World(fs, mutants=_mutants)
+    try:
+        c = w.mod("recheck").Checker("/t/m.torrent", "/data/name")
+        first = c.results()
+        dmg = ["intact"] * len(rels)
+        dmg[-1] = kind
+        rk.apply_damage(E, fs, shape, sizes, dmg)
+        second = c.results()
+    except Exception as ex:  # noqa: BLE001
+        E.fail("C04.no-exception", "%s: %s" % (type(ex).__name__, ex))
+        return
+    E.check(second < 100, "C04.again.result<100", "content damaged (%s) after a first verification: the same Checker still reports %r (first: %r)" % (kind, second, first))
 
 
 def validate(tier, workdir, seed):
@@ -67,7 +99,35 @@ def validate(tier, workdir, seed):
 
 
 def replay(params, model, notes, workdir, seed):
+    if "kind" in params:
+        import io
+        import contextlib
+        import os
+        from harness import creators as cr
+        import refconc
+        p2 = dict(params, dmg=["intact"] * len(rk.SHAPES[params["shape"]]), source="ref")
+        mpath, cpath, data, disk, sizes = rk.conc_world(p2, model, workdir, seed)
+        mods = cr.real_torrentfile()
+        last = rk.SHAPES[params["shape"]][-1]
+        i = len(rk.SHAPES[params["shape"]]) - 1
+        try:
+            with contextlib.redirect_stdout(io.StringIO()):
+                c = mods["torrentfile.recheck"].Checker(mpath, cpath)
+                c.results()
+                d = data[last]
+                d = refconc.flip(d, int(model["o%d" % i])) if params["kind"] == "flip" else d[:int(model["t%d" % i])]
+                refconc.write_file(os.path.join(os.path.dirname(cpath), last), d)
+                second = c.results()
+        except Exception as ex:  # noqa: BLE001
+            return ["C04.no-exception: %s: %s" % (type(ex).__name__, ex)]
+        return [] if second < 100 else ["C04.again.result<100 (got %r)" % (second,)]
     return rk.conc_recheck("C04", params, model, workdir, seed)
+
+
+def post(results, tier):
+    """Exact arithmetic said 'below 100': the float expression the code evaluates is below 100.0 as well."""
+    from harness import lemmas
+    return lemmas.shape_jobs(results, 12 if tier == "quick" else 24, "C04")
 
 
 def canaries(tier):
